@@ -1,6 +1,7 @@
 package main
 
 import (
+	"encoding/json"
 	"flag"
 	"fmt"
 	"os"
@@ -56,6 +57,14 @@ func main() {
 		tier := fs.String("tier", "quick", "quick|thorough")
 		fs.Parse(os.Args[2:])
 		code := cmdCheck(*prop, *tier)
+		cleanupWorkDir()
+		os.Exit(code)
+	case "replay":
+		if len(os.Args) < 3 {
+			fmt.Fprintln(os.Stderr, "usage: govc replay <replay file>")
+			os.Exit(2)
+		}
+		code := cmdReplay(os.Args[2])
 		cleanupWorkDir()
 		os.Exit(code)
 	case "list":
@@ -226,3 +235,99 @@ func lemmaObligation(u *Universe, p *Prelude, l *Lemma, idx int) (o *Obligation,
 	return &Obligation{Func: "lemma." + l.Name, Name: "lemma." + l.Name, Kind: "lemma", Hyps: hyps, Goal: t, Mode: mode, Text: l.Text, Pos: l.Pos, Props: l.Props, Canary: l.Canary, LemmaIndex: idx}, nil
 }
 
+
+// cmdReplay re-examines one reported violation against the CURRENT tree of /repo:
+//   - a replay file with a generated Go test (confirmed failing input) runs that test again and shows what the real
+//     code returns now;
+//   - a bounded case names the stand-in to run;
+//   - otherwise the named obligation is generated and solved again.
+// Exit 1 if the violation is still there, 0 if it is gone.
+func cmdReplay(path string) int {
+	data, err := os.ReadFile(path)
+	if err != nil {
+		fmt.Fprintln(os.Stderr, err)
+		return 2
+	}
+	var r map[string]any
+	if err := json.Unmarshal(data, &r); err != nil {
+		fmt.Fprintln(os.Stderr, err)
+		return 2
+	}
+	obl, _ := r["obligation"].(string)
+	fmt.Printf("property   %v\nobligation %s\nclause     %v\n", r["property"], obl, r["clause"])
+	if in, ok := r["inputs"]; ok {
+		b, _ := json.Marshal(in)
+		fmt.Printf("inputs     %s\n", b)
+	}
+	if out, ok := r["real_outputs"]; ok {
+		b, _ := json.Marshal(out)
+		fmt.Printf("real code returned (when the violation was reported) %s\n", b)
+	}
+	if src, ok := r["go_test"].(string); ok && src != "" {
+		pkg, _ := r["go_test_pkg"].(string)
+		if pkg == "" {
+			pkg = "snaps"
+		}
+		tf := filepath.Join(ensureWorkDir(), "replay_again_test.go")
+		os.WriteFile(tf, []byte(src), 0o644)
+		out, _ := goTestOverlay(tf, pkg, "^TestVerifReplay$", 60, nil)
+		fmt.Println("--- the generated test on the current tree:")
+		for _, l := range strings.Split(out, "\n") {
+			if strings.HasPrefix(l, "REPLAY-") {
+				fmt.Println(l)
+			}
+		}
+	}
+	if strings.HasPrefix(obl, "bounded:") {
+		fmt.Printf("bounded case: %v\nre-run with: %v\n", r["case"], r["replay_cmd"])
+		return 1
+	}
+	fn := obl
+	if i := strings.Index(obl, "#"); i >= 0 {
+		fn = obl[:i]
+	}
+	if strings.HasPrefix(obl, "lemma.") {
+		return cmdVerify("", strings.TrimPrefix(strings.SplitN(obl, "#", 2)[0], "lemma."), false, "", 20)
+	}
+	fmt.Println("--- the obligation on the current tree:")
+	u, err := loadUniverse(repoDir, specFiles())
+	if err != nil {
+		fmt.Fprintln(os.Stderr, "load:", err)
+		return 2
+	}
+	p, err := buildPrelude(u)
+	if err != nil {
+		fmt.Fprintln(os.Stderr, err)
+		return 2
+	}
+	fi, c := u.Funcs[fn], u.Specs.Contracts[fn]
+	if fi == nil || c == nil {
+		fmt.Printf("function or contract %s not found (stale contract)\n", fn)
+		return 1
+	}
+	os_, _, err := verifyFunction(u, fi, c)
+	if err != nil {
+		fmt.Printf("%s: %v\n", fn, err)
+		return 1
+	}
+	var sel []*Obligation
+	for _, o := range os_ {
+		if o.Name == obl {
+			sel = append(sel, o)
+		}
+	}
+	if len(sel) == 0 {
+		fmt.Println("the obligation no longer exists under this name (the function or its contract changed)")
+		return 1
+	}
+	runObligations(p, sel, 20, false)
+	code := 0
+	for _, o := range sel {
+		ok := obligationOK(o)
+		fmt.Printf("%s: %s (%s)\n", o.Name, o.Res.Status, map[bool]string{true: "discharged", false: "STILL FAILING"}[ok])
+		if !ok {
+			code = 1
+		}
+	}
+	return code
+}
